@@ -844,5 +844,277 @@ def o_model_sweep(p, cfg):
 ORACLES["model_sweep"] = o_model_sweep
 
 
+def _tree(root):
+    out = {}
+    for d, _, files in os.walk(root):
+        for f in files:
+            fp = os.path.join(d, f)
+            if f.endswith(".log"):
+                continue
+            with open(fp, "rb") as fh:
+                out[os.path.relpath(fp, root)] = fh.read()
+    return out
+
+
+def o_verdict_matrix(p, cfg):
+    """C06 / C19: sizes x checksums x algorithms x spellings x whether the content is already
+    stored; the verdict must be exactly 'size and checksum match', with the stated effects."""
+    algos = p.get("algorithms", ["sha256", "SHA-256", "sha3_256", "SHA3-256", "md5", "blake2b"])
+    content = b"matrix content"
+
+    def hl(a):
+        s = a.lower()
+        return s.replace("-", "_") if "3" in s and s.startswith("sha3") else s.replace("-", "").replace("_", "")
+    for state in ("absent", "unreferenced", "referenced"):
+        for a in algos:
+            true = hashlib.new(hl(a), content).hexdigest()
+            for cs_kind in ("lower", "upper", "wrong", None):
+                for size_kind in ("right", "wrong", None):
+                    cs = {"lower": true, "upper": true.upper(), "wrong": "0" * len(true), None: None}[cs_kind]
+                    size = {"right": len(content), "wrong": len(content) + 3, None: None}[size_kind]
+                    valid = cs_kind != "wrong" and size_kind != "wrong"
+                    store, props, root = new_store(cfg)
+                    lay = layout.Layout(props)
+                    try:
+                        if state == "unreferenced":
+                            store.store_object(None, tmp_input(root, content, "u.bin"))
+                        elif state == "referenced":
+                            store.store_object("other", tmp_input(root, content, "u.bin"))
+                        before = lay.view()
+                        kw = {}
+                        if cs is not None:
+                            kw.update(checksum=cs, checksum_algorithm=a)
+                        if size is not None:
+                            kw.update(expected_object_size=size)
+                        out = outcome(store.store_object, "pid-m", tmp_input(root, content, "d.bin"), **kw)
+                        after = lay.view()
+                        where = f"store_object(state={state}, algo={a}, checksum={cs_kind}, size={size_kind})"
+                        if valid and out[0] != "return":
+                            return True, f"{where}: valid data rejected with {out[1]}"
+                        if not valid:
+                            want = "NonMatchingObjSize" if size_kind == "wrong" else "NonMatchingChecksum"
+                            if out[0] == "return" or out[1] != want:
+                                return True, f"{where}: expected {want}, got {out[1] if out[0] == 'raise' else 'success'}"
+                            if "pid-m" in after["P"]:
+                                return True, f"{where}: pid bound although the verdict is invalid"
+                            if set(after["O"]) != set(before["O"]) or after["residue"]:
+                                return True, f"{where}: objects changed or temporary file left"
+                        # the step-wise way (C19) where the signature allows it
+                        if cs is not None and size is not None and state != "absent":
+                            s2, p2, r2 = new_store(cfg)
+                            l2 = layout.Layout(p2)
+                            if state == "referenced":
+                                s2.store_object("other", tmp_input(r2, content, "u.bin"))
+                            om = s2.store_object(None, tmp_input(r2, content, "d.bin"))
+                            o2 = outcome(s2.delete_if_invalid_object, om, cs, a, size)
+                            v2 = l2.view()
+                            if valid and (o2[0] != "return" or om.cid not in v2["O"]):
+                                return True, (f"delete_if_invalid_object(state={state}, algo={a}, checksum={cs_kind}, "
+                                              f"size={size_kind}): valid object rejected/deleted: {o2[1:]}")
+                            if not valid:
+                                if o2[0] == "return":
+                                    return True, f"delete_if_invalid_object({where}): invalid data accepted"
+                                gone = om.cid not in v2["O"]
+                                if state == "referenced" and gone:
+                                    return True, "delete_if_invalid_object removed a referenced object"
+                                if state == "unreferenced" and not gone:
+                                    return True, "delete_if_invalid_object kept an invalid unreferenced object"
+                            shutil.rmtree(r2, ignore_errors=True)
+                    finally:
+                        shutil.rmtree(root, ignore_errors=True)
+    return False, "verdicts and effects agree with the property on the whole matrix"
+
+
+def o_reject_matrix(p, cfg):
+    """C17: invalid values for the parameters of every public method, from a populated store:
+    documented error class and a byte-for-byte unchanged store; read-only calls change nothing."""
+    store, props, root = new_store(cfg)
+    content = b"kept content"
+    good = tmp_input(root, content, "g.bin")
+    store.store_object("pid-full", good)
+    store.store_metadata("pid-full", tmp_input(root, b"<m/>", "m.xml"))
+    store.store_metadata("pid-meta-only", tmp_input(root, b"<n/>", "n.xml"), "fmt-q")
+    om = store.store_object(None, tmp_input(root, b"unreferenced", "un.bin"))
+    sroot = props["store_path"]
+    bad_ids = [None, "", "  ", "a b", "tab\tid", "nl\nid"]
+    calls = []
+    for b in bad_ids:
+        if b is not None:        # store_object(None, data) is the documented store-without-pid form
+            calls.append(("store_object", (b, good), {}))
+        calls += [("tag_object", (b, om.cid), {}),
+                  ("tag_object", ("pid-x", b), {}), ("delete_object", (b,), {}),
+                  ("retrieve_object", (b,), {}), ("retrieve_metadata", (b,), {}),
+                  ("store_metadata", (b, good), {}), ("delete_metadata", (b,), {}),
+                  ("get_hex_digest", (b, "sha256"), {}), ("get_hex_digest", ("pid-full", b), {})]
+    calls += [("store_object", ("pid-y", good), {"additional_algorithm": "md2"}),
+              ("store_object", ("pid-y", good), {"checksum": "abc"}),
+              ("store_object", ("pid-y", good), {"checksum_algorithm": "sha256"}),
+              ("store_object", ("pid-y", good), {"expected_object_size": 0}),
+              ("store_object", ("pid-y", good), {"expected_object_size": "12"}),
+              ("store_object", ("pid-y", 42), {}), ("store_object", ("pid-y", None), {}),
+              ("store_metadata", ("pid-y", 42), {}), ("store_metadata", ("pid-y", good, "  "), {}),
+              ("delete_object", ("unknown-pid",), {}), ("delete_object", ("pid-meta-only",), {}),
+              ("retrieve_object", ("unknown-pid",), {}), ("retrieve_object", ("pid-meta-only",), {}),
+              ("retrieve_metadata", ("unknown-pid",), {}), ("get_hex_digest", ("unknown-pid", "md5"), {}),
+              ("get_hex_digest", ("pid-full", "md2"), {}),
+              ("delete_if_invalid_object", (om, "00", "md2", len(b"unreferenced") + 1), {}),
+              ("delete_if_invalid_object", (om, "00", "md2", len(b"unreferenced")), {}),
+              ("delete_if_invalid_object", (om, None, "sha256", 3), {}),
+              ("delete_if_invalid_object", (om, "00", None, 3), {}),
+              ("delete_if_invalid_object", (om, "00", "sha256", "3"), {}),
+              ("delete_if_invalid_object", (None, "00", "sha256", 3), {}),
+              # read-only calls that succeed
+              ("retrieve_object", ("pid-full",), {"_ok": True}),
+              ("retrieve_metadata", ("pid-full",), {"_ok": True}),
+              ("get_hex_digest", ("pid-full", "SHA-256"), {"_ok": True})]
+    doc = {"ValueError", "TypeError", "UnsupportedAlgorithm", "PidRefsDoesNotExist"}
+    for name, args, kw in calls:
+        ok = kw.pop("_ok", False)
+        before = _tree(sroot)
+        out = outcome(getattr(store, name), *args, **kw)
+        if out[0] == "return" and hasattr(out[1], "close"):
+            out[1].close()
+        after = _tree(sroot)
+        what = f"{name}{args if name != 'delete_if_invalid_object' else args[1:]} {kw or ''}"
+        if ok:
+            if out[0] != "return":
+                return True, f"{what}: read-only call failed with {out[1]}"
+        else:
+            if out[0] == "return":
+                return True, f"{what}: invalid call accepted"
+            if out[1] not in doc:
+                return True, f"{what}: rejected with {out[1]} instead of a documented argument error"
+        if before != after:
+            diff = sorted(set(before) ^ set(after)) or [k for k in before if before[k] != after.get(k)]
+            return True, f"{what}: the store changed ({diff[:3]})"
+    return False, f"{len(calls)} rejected / read-only calls left the store unchanged"
+
+
+def o_config_matrix(p, cfg):
+    """C14: an existing store re-opens only with its exact configuration; refusals touch nothing."""
+    from hashstore.filehashstore import FileHashStore
+    store, props, root = new_store(cfg)
+    store.store_object("p", tmp_input(root, b"x"))
+    base = dict(props)
+    variants = []
+    for k, vals in (("store_algorithm", ["sha-256", "Sha-256", "SHA-256 ", "SHA256", "MD5", "SHA-384"]),
+                    ("store_metadata_namespace", [base["store_metadata_namespace"].upper(),
+                                                  base["store_metadata_namespace"] + " ", "other-ns"]),
+                    ("store_depth", [base["store_depth"] + 1, str(base["store_depth"] + 1)]),
+                    ("store_width", [base["store_width"] + 1])):
+        for v in vals:
+            if v != base[k]:
+                variants.append({**base, k: v})
+    before = _tree(base["store_path"])
+    for v in variants:
+        out = outcome(FileHashStore, v)
+        if out[0] == "return":
+            d = {k: v[k] for k in v if v[k] != base[k]}
+            return True, f"an existing store re-opened with a different configuration: {d}"
+        if _tree(base["store_path"]) != before:
+            return True, "a refused constructor call modified the store"
+    same = dict(base, store_depth=str(base["store_depth"]), store_width=str(base["store_width"]))
+    out = outcome(FileHashStore, same)
+    if out[0] != "return":
+        return True, f"integer-like strings for depth/width refused: {out[1]}"
+    return False, f"{len(variants)} mismatching configurations refused, the equal one accepted"
+
+
+def o_client_matrix(p, cfg):
+    """C20: every verb with subsets of its options (valid, invalid and empty values), run through
+    the client as a subprocess on one copy of a seeded store and through the API on another copy;
+    outcome (success / failure) and resulting store trees must agree."""
+    import subprocess
+    content = b"client matrix bytes"
+
+    def seed():
+        store, props, root = new_store(cfg)
+        store.store_object("seeded", tmp_input(root, b"seeded bytes", "s.bin"))
+        store.store_metadata("seeded", tmp_input(root, b"<sys/>", "s.xml"))
+        store.store_metadata("seeded", tmp_input(root, b"<other/>", "o.xml"), "fmt-o")
+        return store, props, root
+    sha = hashlib.sha256(content).hexdigest()
+    cases = []
+    for algo in (None, "sha3_256", "md2"):
+        for cs in (None, (sha, "SHA-256"), ("00", "sha256")):
+            for size in (None, str(len(content)), "7", "", "abc"):
+                cases.append(("storeobject", {"algo": algo, "cs": cs, "size": size}))
+    for fmt in (None, "fmt-o", "", "nope"):
+        cases += [("storemetadata", {"fmt": fmt}), ("retrievemetadata", {"fmt": fmt}),
+                  ("deletemetadata", {"fmt": fmt})]
+    for a in ("SHA-256", "md2"):
+        cases.append(("getchecksum", {"algo": a}))
+    cases += [("retrieveobject", {}), ("deleteobject", {})]
+    for verb, o in cases[:p.get("limit", 200)]:
+        store_a, props_a, root_a = seed()
+        store_b, props_b, root_b = seed()
+        try:
+            data_a = tmp_input(root_a, content, "c.bin")
+            data_b = tmp_input(root_b, content, "c.bin")
+            argv = [sys.executable, "-m", "hashstore.hashstoreclient", props_a["store_path"], "-" + verb]
+            if verb == "storeobject":
+                argv += ["-pid=cli", "-path=" + data_a]
+                kw = {}
+                if o["algo"] is not None:
+                    argv.append("-algo=" + o["algo"])
+                    kw["additional_algorithm"] = o["algo"]
+                if o["cs"] is not None:
+                    argv += ["-checksum=" + o["cs"][0], "-checksum_algo=" + o["cs"][1]]
+                    kw.update(checksum=o["cs"][0], checksum_algorithm=o["cs"][1])
+                if o["size"] is not None:
+                    argv.append("-obj_size=" + o["size"])
+                    try:
+                        kw["expected_object_size"] = int(o["size"])
+                    except ValueError:
+                        kw["expected_object_size"] = o["size"]      # the API rejects it too
+                api = outcome(store_b.store_object, "cli", data_b, **kw)
+            elif verb in ("storemetadata", "retrievemetadata", "deletemetadata"):
+                pid = "cli" if verb == "storemetadata" else "seeded"
+                argv.append("-pid=" + pid)
+                f = o["fmt"]
+                if f is not None:
+                    argv.append("-formatid=" + f)
+                if verb == "storemetadata":
+                    argv.append("-path=" + data_a)
+                    api = outcome(store_b.store_metadata, pid, data_b, f)
+                elif verb == "retrievemetadata":
+                    api = outcome(lambda: store_b.retrieve_metadata(pid, f).read())
+                else:
+                    api = outcome(store_b.delete_metadata, pid, f if f is not None
+                                  else props_b["store_metadata_namespace"])
+            elif verb == "getchecksum":
+                argv += ["-pid=seeded", "-algo=" + o["algo"]]
+                api = outcome(store_b.get_hex_digest, "seeded", o["algo"])
+            elif verb == "retrieveobject":
+                argv.append("-pid=seeded")
+                api = outcome(lambda: store_b.retrieve_object("seeded").read())
+            else:
+                argv.append("-pid=seeded")
+                api = outcome(store_b.delete_object, "seeded")
+            r = subprocess.run(argv, capture_output=True, text=True, timeout=60)
+            cli_ok = r.returncode == 0
+            api_ok = api[0] == "return"
+            what = " ".join(a for a in argv[3:] if not a.startswith("-path"))
+            if cli_ok != api_ok:
+                last = (r.stderr.strip().splitlines() or [""])[-1][:150]
+                return True, (f"client `{what}` {'succeeded' if cli_ok else 'failed: ' + last} but the API call "
+                              f"with those values {'succeeded' if api_ok else 'raised ' + api[1]}")
+            ta = {k: v for k, v in _tree(props_a["store_path"]).items()}
+            tb = {k: v for k, v in _tree(props_b["store_path"]).items()}
+            if ta != tb:
+                diff = sorted(set(ta) ^ set(tb))[:3]
+                return True, f"client `{what}` left a different store than the API call: {diff}"
+        finally:
+            shutil.rmtree(root_a, ignore_errors=True)
+            shutil.rmtree(root_b, ignore_errors=True)
+    return False, f"{len(cases)} client invocations agree with the API"
+
+
+ORACLES["client_matrix"] = o_client_matrix
+ORACLES["verdict_matrix"] = o_verdict_matrix
+ORACLES["reject_matrix"] = o_reject_matrix
+ORACLES["config_matrix"] = o_config_matrix
+
+
 if __name__ == "__main__":
     main()
